@@ -1220,6 +1220,9 @@ def context_literals(v, st):
             continue
         t = v.ev.term(test, at=if_stmt_of(v, test))
         out.append(t if pol else v.ev._not(t))
+    if not v.ev.exact:      # (exact mode adds them in full_term)
+        # guards that sit inside a branch (`if a: (if b: raise)` survived means `not (a and b)`)
+        out += v.ev._structural_reach(st)
     return out
 
 
